@@ -383,6 +383,14 @@ def rule_g(ctx: Ctx):
         enters = [e for e in sl.it.events if e.kind == "call-enter"]
         tr = [e for e in enters if e.data.name.endswith("._transit_to_next_time") and not any("loopvar" in vg.show(c, 6) for c in e.conds if isinstance(c, vg.S))]
         mk = [e for e in enters if e.data.name.endswith("._make_step")]
+        if tr and len(mk) > 1:
+            # several _make_step sites: the scheduling step is applied along different paths (a fast path for `all rows schedule`
+            # next to the masked one).  The whole-TensorDict write-back `td[mask] = td_op` is what carries EVERY key the step
+            # touches (start and finish times, assignments, ...) back into the batch; per-key copy lists are not accepted.
+            ctx.ob("C07.g", f"{cname}._step:one-scheduling-path", False, sl.where,
+                   f"_make_step is called on {len(mk)} paths of _step: the rows that schedule must go through ONE masked select / write-back of the whole state",
+                   construct=f"{sl.fi.qualname}:several-make-step-paths")
+            continue
         if not tr or len(mk) != 1:
             raise AnalysisError(f"{cname}._step: expected one _make_step call and a wait transition ({len(tr)}, {len(mk)})")
         m1 = tr[0].data.locals.get("step_complete")
@@ -457,6 +465,55 @@ def rule_h(ctx: Ctx):
         ctx.ob("C07.h", f"FFSPEnv.{meth}:{key}<-tables.{getter}", ok, sl.where, f"{key} is written from {names}", construct=f"FFSPEnv.{meth}:{key}:getter")
 
 
+def rule_k(ctx: Ctx):
+    """C07.k FFSP tables and sentinel.  (1) Each getter of IndexTables returns from the table it is named after
+    (get_machine_index -> machine_table: GLOBAL machine ids, the row of run_time / schedule; get_stage_machine_index ->
+    stage_machine_table: ids inside the stage; get_stage_index -> stage_table).  The two machine tables are one object for the
+    default flatten_stages=True, so a mix-up only shows in the multi-stage layout.  (2) `schedule` starts from a sentinel that
+    can never win the makespan `max(schedule + job_duration)`: a large negative constant (|c| >= 10^4 >> any run time), not
+    the -1 that render() uses as `not scheduled`."""
+    import ast
+    path = T.ALL_ENVS["FFSPEnv"]
+    cls = ctx.repo.get_class(path, "IndexTables")
+    WANT = {"get_machine_index": "machine_table", "get_stage_machine_index": "stage_machine_table", "get_stage_index": "stage_table"}
+    from ..model import returned_exprs
+    for g, tbl in WANT.items():
+        fi = cls.methods.get(g)
+        if fi is None:
+            raise AnalysisError(f"IndexTables.{g} not found")
+        ctx.fn(fi)
+        rets = list(returned_exprs(fi.node))
+        src = set()
+        for r in rets:
+            for x in ast.walk(r):
+                if isinstance(x, ast.Attribute) and isinstance(x.value, ast.Name) and x.value.id == "self" and x.attr.endswith("_table"):
+                    src.add(x.attr)
+        ok = src == {tbl}
+        ctx.ob("C07.k", f"IndexTables.{g}:reads-{tbl}", ok, fi.loc, f"returns from {sorted(src)}; the table this getter stands for: {tbl}", construct=f"IndexTables.{g}:table")
+    env = EnvA(ctx.repo, path, "FFSPEnv")
+    rs = env.slot("_reset")
+    v = rs.cell("schedule") if rs is not None else None
+    x = nf.strip(v) if isinstance(v, vg.S) else None
+    fill = None
+    if x is not None and nf._fn(x) in ("torch.full", "torch.full_like"):
+        kws = {a.args[0]: a.args[1] for a in x.args[1:] if isinstance(a, vg.S) and a.op == "kw"}
+        f = kws.get("fill_value")
+        if f is None:
+            pos = [a for a in x.args[1:] if isinstance(a, vg.S) and a.op != "kw"]
+            f = pos[1] if len(pos) > 1 else None
+        if isinstance(f, vg.S):
+            p_ = nf.poly(f)
+            if p_.is_const():
+                fill = p_.const_term()
+    if fill is None:
+        raise AnalysisError("FFSPEnv._reset: schedule is not torch.full(..., fill_value=<constant>)")
+    ok = fill <= -10 ** 4
+    ctx.ob("C07.k", "FFSPEnv._reset:schedule:sentinel-below-every-completion-time", ok, rs.where,
+           f"schedule starts at {float(fill):g}; the makespan is max(schedule + job_duration) over ALL (machine, job) pairs" +
+           ("" if ok else " -- an unused pair contributes run_time + sentinel, which exceeds the true makespan of short schedules"),
+           construct="FFSPEnv._reset:schedule-sentinel")
+
+
 def rule_j(ctx: Ctx):
     """C07.j lookup tables and time stamps keep their values.  (1) Two attributes bound to ONE tensor (`self.a = self.b`) are two
     names, not two tables: an in-place update through either name (`-=`, `[...] =`, `x_()`) changes both -- FFSP's machine table
@@ -521,6 +578,7 @@ def run(ctx: Ctx):
     instance_sized_state(ctx, EnvA(ctx.repo, T.ALL_ENVS["SMTWTPEnv"], "SMTWTPEnv"), "C07.i")
     rule_h(ctx)
     rule_j(ctx)
+    rule_k(ctx)
     rule_g(ctx)
     rule_a(ctx)
     rule_f(ctx)
